@@ -10,7 +10,10 @@
 //!    "ops":[{"op":"write","p":"a"}, {"op":"read","p":"a"}, {"op":"remove","p":"a"},
 //!           {"op":"flush"}, {"op":"flushb","p":"a"}, {"op":"reopen"}, {"op":"reopen","ro":true},
 //!           {"op":"compact"}]}
-//! After the last operation every payload of the table is read once more ("audit":1).
+//!           {"op":"fill","n":30,"bucket":5}   n writes of fresh small objects whose encoding keys all fall
+//!                                             into one index bucket (recorded as n ordinary write events)
+//!           {"op":"churn","n":11,"bucket":5}  n write+remove pairs of such objects (dyn)
+//! After the last operation every payload of the table (and every fill object) is read once more ("audit":1).
 //!
 //! Component "dyn":  Container::write/read/query/remove on a DynamicContainer, flush_all_updates /
 //!                   flush_bucket, reopen = drop + new + open() on the same directory.
@@ -354,8 +357,48 @@ fn first_diff(a: &[u8], b: &[u8]) -> i64 {
     a.iter().zip(b.iter()).position(|(x, y)| x != y).unwrap_or(a.len().min(b.len())) as i64
 }
 
+/// The next not yet used small object whose encoding key falls into index bucket `bucket`
+/// (names k<bucket>n<j>, plain class, 16..28 bytes; a fixed function of bucket and j).
+fn next_in_bucket(bucket: u8, cursor: &mut HashMap<u8, u64>) -> (Payload, usize) {
+    let j = cursor.entry(bucket).or_insert(0);
+    loop {
+        let name = format!("k{bucket:x}n{j}");
+        let len = 16 + (*j % 13) as usize;
+        *j += 1;
+        let data = content(&name, "plain", len);
+        let key = *EncodingKey::from_data(&blte_wrap(&data)).as_bytes();
+        if IndexManager::bucket_for_key(&EncodingKey::from_bytes(key)) == bucket {
+            return (Payload { md5: md5hex(&data), name, data, key }, len);
+        }
+    }
+}
+
+/// fill / churn -> ordinary write (+ remove) operations on fresh objects of one bucket
+fn expand(ops: &[Value], table: &mut Vec<Payload>) -> Vec<Value> {
+    let mut cursor: HashMap<u8, u64> = HashMap::new();
+    let mut out = vec![];
+    for op in ops {
+        let kind = op["op"].as_str().unwrap_or("");
+        if kind == "fill" || kind == "churn" {
+            let n = op["n"].as_u64().expect("fill n");
+            let bucket = op.get("bucket").and_then(Value::as_u64).unwrap_or(5) as u8 & 15;
+            for _ in 0..n {
+                let (p, len) = next_in_bucket(bucket, &mut cursor);
+                out.push(json!({"op": "write", "p": p.name, "fill": len}));
+                if kind == "churn" {
+                    out.push(json!({"op": "remove", "p": p.name}));
+                }
+                table.push(p);
+            }
+        } else {
+            out.push(op.clone());
+        }
+    }
+    out
+}
+
 fn run_program(prog: &Value, out: &Emit) {
-    let table = payload_table(prog);
+    let mut table = payload_table(prog);
     let dir = tempfile::tempdir_in(scratch()).expect("tempdir");
     let comp = prog["comp"].as_str().expect("comp").to_string();
     let mode_s = prog.get("mode").and_then(|m| m.as_str()).unwrap_or("none").to_string();
@@ -377,7 +420,7 @@ fn run_program(prog: &Value, out: &Emit) {
     out.ev(json!({"op": "new", "comp": comp, "mode": mode_s, "compress": compress, "res": opened,
                   "payloads": prog["payloads"].clone()}));
     let mut seq = 0u64;
-    let mut ops: Vec<Value> = prog["ops"].as_array().expect("ops").clone();
+    let mut ops: Vec<Value> = expand(prog["ops"].as_array().expect("ops"), &mut table);
     if prog.get("audit").and_then(Value::as_bool).unwrap_or(true) {
         for p in &table {
             ops.push(json!({"op": "read", "p": p.name, "audit": 1}));
@@ -472,7 +515,43 @@ fn random_len(rng: &mut Rng) -> u64 {
     }
 }
 
+/// Many small objects in one store, no flush, reopen(s): the index update logs of the buckets grow
+/// past one page (21 entries) and have to be read back.
+fn bulk_program(rng: &mut Rng) -> Value {
+    let comp = *rng.pick(&["dyn", "inst"]);
+    let npay = 300 + rng.below(200) as usize;
+    let mut payloads: Vec<Value> = vec![];
+    for i in 0..npay {
+        // distinct by construction: the length is >= 8 pseudo-random bytes seeded by the name
+        payloads.push(json!([format!("p{i}"), if rng.chance(1, 4) { "comp" } else { "plain" }, 8 + rng.below(40)]));
+    }
+    let mut ops = vec![];
+    let mut written = 0usize;
+    while written < npay {
+        let x = rng.below(100);
+        if x < 86 || written == 0 {
+            ops.push(json!({"op": "write", "p": format!("p{written}")}));
+            written += 1;
+        } else if x < 94 {
+            ops.push(json!({"op": "read", "p": format!("p{}", rng.below(written as u64))}));
+        } else if x < 96 && comp == "dyn" {
+            ops.push(json!({"op": "remove", "p": format!("p{}", rng.below(written as u64))}));
+        } else if x < 98 {
+            ops.push(json!({"op": "reopen"}));
+        } else if rng.chance(1, 3) {
+            ops.push(json!({"op": "fill", "n": 5 + rng.below(40), "bucket": rng.below(16)}));
+        }
+    }
+    if rng.chance(3, 4) {
+        ops.push(json!({"op": "reopen"}));
+    }
+    json!({"comp": comp, "mode": "none", "compress": rng.chance(1, 2), "payloads": payloads, "ops": ops})
+}
+
 fn random_program(rng: &mut Rng, len: usize) -> Value {
+    if rng.chance(1, 10) {
+        return bulk_program(rng);
+    }
     let comp = *rng.pick(&["dyn", "dyn", "inst", "inst", "arch"]);
     let mode = if comp == "arch" { *rng.pick(&["none", "zlib", "lz4"]) } else { "none" };
     let compress = rng.chance(1, 2);
